@@ -102,7 +102,12 @@ func stReplay(raw json.RawMessage, idx int, tr *traceWriter) {
 		so.CacheControl = func() string { return "max-age=60" }
 	}
 	f := flamego.NewWithLogger(io.Discard)
-	f.Use(flamego.Static(so))
+	// the options are handed over in a slice of the caller's own, which the caller re-uses afterwards (to configure another
+	// instance, say): the middleware is configured by what the options were at the time of the call
+	soSlice := []flamego.StaticOptions{so}
+	f.Use(flamego.Static(soSlice...))
+	soSlice[0] = flamego.StaticOptions{Directory: filepath.Dir(stRoot), Prefix: "elsewhere", Index: "secret"}
+	_ = flamego.Static(soSlice...)
 	nextRan, writtenAtNext := false, false
 	leaked := []string{}
 	f.NotFound(func(c flamego.Context) {
